@@ -13,6 +13,7 @@ From Chess3 Require Export Spec.SnapJudge.
 From Chess3 Require Export Model.TT Spec.TTSpec.
 From Chess3 Require Export Model.Hist Model.Picker Spec.PickerSpec.  (* C16 *)
 From Chess3 Require Export Model.FenStreams.
+From Chess3 Require Export Model.FenSeq.
 From Chess3 Require Export Spec.FenSpec.
 From Chess3 Require Export Model.AttacksStream.
 From Chess3 Require Export Model.SeeStreams.
